@@ -12,6 +12,9 @@ PROP = {
         "GunYu.Props.C20.absent_final_bisync",
         "GunYu.Props.C20.snapshot_exp_abs",
         "GunYu.Props.C20.runPlain_append",
+        "GunYu.Props.C20.bad_data_bisync_fails",
+        "GunYu.Props.C20.retag_group",
+        "GunYu.Props.C20.rewriteCmd_cmdKey",
     ],
     "expected_facts": {},
     "harness": [
@@ -41,7 +44,9 @@ PROP = {
             "cases; the bubble clock is 137 ms off a whole second and expiries are not multiples of 1000; the real SendRdb with 2-3 "
             "workers (plain and bidirectional, split values, empty key) under every policy with an order-free monitor; a client "
             "write between buildBisyncRdbReplayUnit's EXISTS probe and execBisyncRdbUnit's MULTI/EXEC (tg.Hook) on the RESTORE path. "
-            "Schedules of the parser vs the replay workers (they share the BinEntry objects): besides 'everything parsed first', the plain "
+            "TargetDb (0..2) and TargetDbMap ({1->0}, {0->2,1->0}) in a quarter of the two-DB cases (monitor: value in the mapped DB, "
+            "nothing in the unmapped one); keys that rewrite to the EMPTY key ({} , }{) under replaceHashTag; 'Bad data format' also "
+            "inside the bidirectional unit's EXEC. Schedules of the parser vs the replay workers (they share the BinEntry objects): besides 'everything parsed first', the plain "
             "harness runs an INTERLEAVED schedule (entry n+1 parsed only after entry n was replayed; monitor: all bins of a value carry "
             "the key of its first bin) and the send mode a GATED source (the snapshot arrives in two parts with quiescence in between, "
             "every 2nd byte offset, tagged keys, split values, 1-2 workers). "
@@ -55,9 +60,8 @@ PROP = {
         "the chunks of one key reach the same replay worker in order (sendRdb routes by fnv(key); an entry with an EMPTY key is "
         "routed round-robin, so with replayRdbParallel > 1 a split value under the key \"\" would not satisfy this)",
         "no other writer touches the key between the probe and the writes (single replay worker per key)",
-        "bidirectional replay: a RESTORE refused with 'Bad data format' inside the unit's EXEC fails the replay with an error "
-        "(nothing merged) - not modelled (hypothesis `t.bad key = false` of the *_bisync theorems); the plain path's fallback IS "
-        "modelled and exercised",
+        "bidirectional replay: a RESTORE refused with 'Bad data format' inside the unit's EXEC fails the replay (err-bad) with "
+        "nothing merged: modelled (buildUnit -> errBad), proved (bad_data_bisync_fails) and exercised (double's BadRestore inside EXEC)",
         "window between probe and write: exercised for the bidirectional RESTORE path only (BUSYKEY: ignore/error keep the concurrent "
         "value; under ignore the replay FAILS because the transaction batcher reports the BUSYKEY slot before "
         "validateBisyncRdbExecReplies' tolerance is reached - observation); on the expansion paths a key created inside the window "
@@ -70,7 +74,19 @@ PROP = {
         "values and the rewritten / the unrewritten name pre-populated (exhaustive 162-case scope per mode + 1/4 of the random cases)",
         "later chunks carry the key's expiry or none (Value.exp): holds for the loader before and after the D8 repair",
     ],
-    "partial": [],
+    "partial": [
+        "snapshot level: the theorems are per key group; runPlain_append (composition) is a lemma, no theorem over a list of groups "
+        "/ several DBs is stated, there is no runBisync_append, and worker_is_* need every entry in the connection's DB (the SELECT "
+        "branch, TargetDb/TargetDbMap are correspondence-only: the driver maps entry DBs before runWorker)",
+        "replaceHashTag: the worker replays `retag e` - applied in the driver; proved only that retag keeps a key group a key group "
+        "on the rewritten key (retag_group) and moves the command key (rewriteCmd_cmdKey); that the real code equals `replay (retag e)` "
+        "is correspondence (D27, D28, D29 were found there)",
+        "Group / Value (shape of loader output) are hypotheses; streams (XGROUP/XCLAIM key positions) and module values are not "
+        "generated in C20 (a mutation rewriting only key position 0 under replaceHashTag is missed here)",
+        "expiry: snapshot_exp_abs covers tool clock = target clock and a future expiry only",
+        "two snapshot keys that rewrite to the same target key ({a}b and ab) / two source DBs mapped onto one target DB with the same "
+        "key name: the second meets the first as a pre-existing key; not generated, meaning left to the policy",
+    ],
 }
 
 MANIFEST = {
@@ -82,6 +98,6 @@ MANIFEST = {
             "to the real code by request-by-request correspondence against the target double with pre-populated keys; an "
             "independent Go monitor checks the property itself on the real code's final keyspace.",
     "note": "trusted: Lean kernel, transcribed Redis semantics of the few commands used, target double, harness; models of the "
-            "REPAIRED code (D7, D21, D24, D25, D27, D28 fixed)",
+            "REPAIRED code (D7, D21, D24, D25, D27, D28, D29 fixed)",
     "technique": "Lean 4 proof (induction over the chunk list, per-key object semantics, frame lemmas) + differential correspondence + monitor",
 }
